@@ -389,11 +389,20 @@ inductive Found
   | noInterface
 
 /-- the two nested loops of `bus_driver_handle_message` -/
-def findHandler (tbl : List IfaceRow) (canonical : Bool) (iface : Option Bytes) (name : Bytes) : Found :=
-  let cands := tbl.filter fun ih => (canonical || ih.anyPath) && (match iface with | some i => i == ih.name | none => true)
-  match cands.findSome? (fun ih => (ih.methods.find? (·.name == name)).map (fun r => (ih.name, r))) with
+def ifaceWanted : Option Bytes → Bytes → Bool
+  | some i, n => i == n
+  | none, _ => true
+
+def handlerIn (name : Bytes) (ih : IfaceRow) : Option (Bytes × MethodRow) :=
+  (ih.methods.find? (·.name == name)).map (fun r => (ih.name, r))
+
+def findIn (cands : List IfaceRow) (name : Bytes) : Found :=
+  match cands.findSome? (handlerIn name) with
   | some (i, r) => .handler i r
   | none => if cands.isEmpty then .noInterface else .noMethod
+
+def findHandler (tbl : List IfaceRow) (canonical : Bool) (iface : Option Bytes) (name : Bytes) : Found :=
+  findIn (tbl.filter fun ih => (canonical || ih.anyPath) && ifaceWanted iface ih.name) name
 
 def nRules (b : Bus) (c : ConnId) : Nat := match b.conn? c with | some x => x.rules.length | none => 0
 def rulesOfConn (b : Bus) (c : ConnId) : List MatchRule := match b.conn? c with | some x => x.rules | none => []
@@ -541,21 +550,18 @@ inductive Ev
   | close (c : ConnId)
   deriving Inhabited
 
+def PEER_IFACE : Bytes := ([0x6f,0x72,0x67,0x2e,0x66,0x72,0x65,0x65,0x64,0x65,0x73,0x6b,0x74,0x6f,0x70,0x2e,0x44,0x42,0x75,0x73,0x2e,0x50,0x65,0x65,0x72] : Bytes)
+def PING : Bytes := ([0x50,0x69,0x6e,0x67] : Bytes)
+def GET_MACHINE_ID : Bytes := ([0x47,0x65,0x74,0x4d,0x61,0x63,0x68,0x69,0x6e,0x65,0x49,0x64] : Bytes)
+
 /-- the reply libdbus itself gives to a method call that has no destination (the bus leaves it
-    to the connection layer): no sender field (see known finding F14) -/
+    to the connection layer): no sender field, and addressed to whatever sender the caller wrote into
+    its own message (see known finding F14) -/
 def builtinReply (m : Msg) : List Msg :=
   if m.mtype != 1 then []
-  else
-    let peer := (/- "org.freedesktop.DBus.Peer" -/ [0x6f,0x72,0x67,0x2e,0x66,0x72,0x65,0x65,0x64,0x65,0x73,0x6b,0x74,0x6f,0x70,0x2e,0x44,0x42,0x75,0x73,0x2e,0x50,0x65,0x65,0x72] : Bytes)
-    if m.iface == some peer && m.member == some ((/- "Ping" -/ [0x50,0x69,0x6e,0x67] : Bytes)) then [mkReturn' m [] []]
-    else if m.iface == some peer && m.member == some ((/- "GetMachineId" -/ [0x47,0x65,0x74,0x4d,0x61,0x63,0x68,0x69,0x6e,0x65,0x49,0x64] : Bytes)) then [mkReturn' m [tStr] [sStr []]]
-    else if m.iface == some peer then [mkErr' m .unknownMethod]
-    else [mkErr' m .unknownMethod]
-where
-  mkReturn' (m : Msg) (tys : List Ty) (body : List Val) : Msg :=
-    mkMsg 2 [u32Field FIELD_REPLY_SERIAL m.serial] tys body
-  mkErr' (m : Msg) (e : Err) : Msg :=
-    mkMsg 3 [u32Field FIELD_REPLY_SERIAL m.serial, strField FIELD_ERROR_NAME e.name] [tStr] [sStr []]
+  else if m.iface == some PEER_IFACE && m.member == some PING then [mkReturn m [] []]
+  else if m.iface == some PEER_IFACE && m.member == some GET_MACHINE_ID then [mkReturn m [tStr] [sStr []]]
+  else [mkError m .unknownMethod]
 
 /-- the header as the bus takes it in: unknown fields and CONTAINER_INSTANCE dropped -/
 def strip (m0 : Msg) : Msg :=
